@@ -5,7 +5,8 @@ From Coq Require Import Lia List NArith Bool.
 From StgV Require Import Model.StackSpec Model.IdentSpec.
 From StgV Require Import Proofs.WfBasics Proofs.WfFrame Proofs.MirrorProofs Proofs.WfTxn Proofs.WfCmd.
 From StgV Require Import Proofs.IdentTxn.
-From StgV Require Proofs.ReachBase Proofs.ReachEvolve Proofs.ReachStep Proofs.CommitProofs.
+From StgV Require Proofs.ReachBase Proofs.ReachEvolve Proofs.ReachStep Proofs.CommitProofs
+  Proofs.NoPanicExec.
 Import ListNotations.
 Local Open Scope nat_scope.
 
@@ -394,3 +395,612 @@ Proof.
   destruct (Nat.lt_ge_cases o' (length (w_objs w))) as [Hlt|Hge]; [exact Hlt|].
   exfalso. exact (Hnn o' Hge Hpl).
 Qed.
+
+(* ---------------------------------------------------------------- refresh *)
+
+(* stg refresh runs two transactions: the first adds the patch `refresh-temp` (identity (0, []))
+   on top, the second folds its tree into the top patch and deletes it.  The second cannot fail
+   once the first has succeeded, so the temporary patch is never left behind. *)
+
+Lemma tree_eqb_refl : forall a, tree_eqb a a = true.
+Proof. induction a as [|x a IH]; cbn; [reflexivity|]. now rewrite N.eqb_refl, IH. Qed.
+
+Lemma split_at_last : forall (f : name -> bool) A x,
+  (forall y, In y A -> f y = false) -> f x = true -> split_at_first f (A ++ [x]) = (A, [x]).
+Proof.
+  intros f A x HA Hx. unfold split_at_first. rewrite (position_char f (A ++ [x]) (length A) x).
+  - rewrite firstn_app, Nat.sub_diag, firstn_all, skipn_app, skipn_all, Nat.sub_diag. cbn.
+    now rewrite app_nil_r.
+  - rewrite firstn_app, Nat.sub_diag, firstn_all. cbn. rewrite app_nil_r. exact HA.
+  - rewrite skipn_app, skipn_all, Nat.sub_diag. reflexivity.
+  - exact Hx.
+Qed.
+
+Lemma delete_last : forall t0 A x,
+  t_applied t0 = A ++ [x] -> ~ In x A -> ~ In x (t_unapplied t0) -> ~ In x (t_hidden t0) ->
+  delete_patches (fun n => name_eqb n x) t0 =
+  (set_updated (set_lists t0 A (t_unapplied t0) (t_hidden t0)) (up_set (t_updated t0) x None), []).
+Proof.
+  intros t0 A x Ha HA HU HH. unfold delete_patches. rewrite Ha, split_at_last.
+  - assert (Hf : forall l, ~ In x l -> filter (fun n => name_eqb n x) l = []
+                           /\ filter (fun n => negb (name_eqb n x)) l = l).
+    { intros l Hl. split; [apply filter_none|apply filter_all]; intros y Hy;
+        destruct (name_eqb_spec y x) as [->|Hn]; try reflexivity; contradiction. }
+    destruct (Hf _ HU) as [-> ->]. destruct (Hf _ HH) as [-> ->].
+    cbn [filter]. rewrite name_eqb_refl. cbn [negb app]. reflexivity.
+  - intros y Hy. apply name_eqb_neq. intros ->. contradiction.
+  - apply name_eqb_refl.
+Qed.
+
+Definition refresh_body (pn tmpname : name) (t : txn) : tres :=
+  match t_patch t pn, t_patch t tmpname with
+  | Some pc, Some tc =>
+      let old := get (t_objs t) pc in
+      let new_tree := tree_of (t_objs t) tc in
+      let t1 :=
+        if tree_eqb new_tree (tree_of (t_objs t) pc) then (t, None)
+        else
+          let '(objs', o) :=
+            put (t_objs t)
+                (plain (parents_of (t_objs t) pc) new_tree
+                       (match old with Some c => c_meta c | None => 0%N end)
+                       (subj_of (t_objs t) pc)) in
+          (set_objs t objs', Some o) in
+      let '(t2, _) := delete_patches (fun n => name_eqb n tmpname) (fst t1) in
+      match snd t1 with
+      | Some o => update_patch pn o t2
+      | None => TOk t2
+      end
+  | _, _ => TPanic
+  end.
+
+(* the commit refresh creates for the patch [pc] *)
+Definition refreshed (objs : store) (pc : oid) (tr : tree) : commit :=
+  plain (parents_of objs pc) tr (match get objs pc with Some c => c_meta c | None => 0%N end)
+        (subj_of objs pc).
+
+Lemma refresh_body_same : forall pn tmpname t pc tc A,
+  t_patch t pn = Some pc -> t_patch t tmpname = Some tc ->
+  tree_eqb (tree_of (t_objs t) tc) (tree_of (t_objs t) pc) = true ->
+  t_applied t = A ++ [tmpname] -> ~ In tmpname A -> ~ In tmpname (t_unapplied t) ->
+  ~ In tmpname (t_hidden t) ->
+  refresh_body pn tmpname t =
+  TOk (set_updated (set_lists t A (t_unapplied t) (t_hidden t)) (up_set (t_updated t) tmpname None)).
+Proof.
+  intros pn tmpname t pc tc A Epn Etn Etr Ha HA HU HH. unfold refresh_body.
+  rewrite Epn, Etn. cbv zeta. rewrite Etr. cbn [fst snd].
+  now rewrite (delete_last t A tmpname Ha HA HU HH).
+Qed.
+
+Lemma refresh_body_new : forall pn tmpname t pc tc A,
+  t_patch t pn = Some pc -> t_patch t tmpname = Some tc -> pn <> tmpname ->
+  tree_eqb (tree_of (t_objs t) tc) (tree_of (t_objs t) pc) = false ->
+  t_applied t = A ++ [tmpname] -> ~ In tmpname A -> ~ In tmpname (t_unapplied t) ->
+  ~ In tmpname (t_hidden t) ->
+  refresh_body pn tmpname t =
+  TOk (set_updated
+         (set_lists (set_objs t (t_objs t ++ [refreshed (t_objs t) pc (tree_of (t_objs t) tc)]))
+                    A (t_unapplied t) (t_hidden t))
+         (up_set (up_set (t_updated t) tmpname None) pn (Some (length (t_objs t))))).
+Proof.
+  intros pn tmpname t pc tc A Epn Etn Hne Etr Ha HA HU HH. unfold refresh_body.
+  rewrite Epn, Etn. cbv zeta. rewrite Etr. unfold put. cbv beta iota. cbn [fst snd].
+  fold (refreshed (t_objs t) pc (tree_of (t_objs t) tc)).
+  set (t0 := set_objs t _).
+  rewrite (delete_last t0 A tmpname Ha HA HU HH).
+  unfold update_patch. rewrite t_patch_upd, up_get_set.
+  apply name_eqb_neq in Hne. rewrite name_eqb_sym, Hne.
+  change (match up_get (t_updated t0) pn with Some v => v | None => _ end) with (t_patch t pn).
+  rewrite Epn. reflexivity.
+Qed.
+
+Definition refresh_opts : topts := opts CDisallow true false true true false.
+
+Lemma refresh_exec_ok : forall w t so pn th,
+  t_opts t = refresh_opts -> t_head t = None ->
+  last_error (t_applied t) = Some pn -> t_patch t pn = Some th ->
+  tree_eqb (t_cur_tree t) (tree_of (t_objs t) th) = true ->
+  t_wt_unmerged t = false ->
+  exec_consistent t = true ->
+  s_head (t_stack t) = w_branch w -> s_top (t_stack t) = w_branch w ->
+  w_stack w = Some so -> state_of (t_objs t) so <> None -> first_parent (t_objs t) so <> None ->
+  snd (exec_body w t None MOp) = X0.
+Proof.
+  intros w t so pn th Ho Hh Hl Hp Htr Hum Hc Hsh Hst Hs Hso Hfp.
+  apply (exec_body_succeeds w t MOp th (t_wt t) false so); auto.
+  - unfold t_head_oid, t_top. rewrite Hh. unfold last_error in Hl. now rewrite Hl.
+  - unfold exec_co. rewrite Ho. cbn [refresh_opts opts o_set_head o_use_iw o_allow_bad_head andb negb].
+    unfold exec_w0. cbn [w_branch w_wt w_unmerged w_objs].
+    rewrite Hst, Nat.eqb_refl. cbn [negb]. rewrite andb_false_r.
+    unfold checkout at 1. rewrite Htr. cbn [o_discard_changes o_conflict_mode negb andb].
+    now rewrite Hum.
+Qed.
+
+Lemma open_allow_ok : forall w so s,
+  Inv w -> w_stack w = Some so -> state_of (w_objs w) so = Some s ->
+  exists b, open_stack PAllow w = Some (mkOpened (ensure_patch_refs w s) s b true).
+Proof.
+  intros w so s Hi Hs Es. unfold open_stack. rewrite Hs, Es.
+  destruct (stack_base (w_objs w) (w_branch w) s) as [b|] eqn:Eb; [eauto|]. exfalso.
+  destruct Hi as [_ [Hst _]]. destruct (Hst so s Es) as [_ [_ [Hd [Hp _]]]].
+  unfold stack_base in Eb. destruct (s_applied s) as [|n r] eqn:Ea; [discriminate|].
+  destruct (pm_get (s_patches s) n) as [o|] eqn:Eg.
+  - destruct (Hp n o Eg) as [_ [p Ep]]. unfold first_parent in Eb. rewrite Ep in Eb. discriminate.
+  - apply (Hd n); [|exact Eg]. unfold all_of. rewrite Ea. now left.
+Qed.
+
+Lemma s_top_last : forall s A x o,
+  s_applied s = A ++ [x] -> pm_get (s_patches s) x = Some o -> s_top s = o.
+Proof. intros s A x o H H0. unfold s_top, last_error. now rewrite H, last_error_app, H0. Qed.
+
+Lemma refresh_second : forall w2 so s2 A tmpname tmpc pn pc w' x,
+  Inv w2 -> w_stack w2 = Some so -> state_of (w_objs w2) so = Some s2 ->
+  first_parent (w_objs w2) so <> None ->
+  w_branch w2 = tmpc -> w_unmerged w2 = false -> s_head s2 = tmpc ->
+  s_applied s2 = A ++ [tmpname] -> last_error A = Some pn ->
+  pm_get (s_patches s2) tmpname = Some tmpc -> pm_get (s_patches s2) pn = Some pc ->
+  match open_stack PAllow w2 with
+  | None => err2 w2
+  | Some op2 => transact op2 refresh_opts (refresh_body pn tmpname) MOp
+  end = (w', x) ->
+  x = X0 /\ store_extends (w_objs w2) (w_objs w')
+  /\ ((tree_eqb (tree_of (w_objs w2) tmpc) (tree_of (w_objs w2) pc) = true
+       /\ forall n, patch_commit w' n = if name_eqb tmpname n then None else patch_commit w2 n)
+      \/ (tree_eqb (tree_of (w_objs w2) tmpc) (tree_of (w_objs w2) pc) = false
+          /\ get (w_objs w') (length (w_objs w2))
+             = Some (refreshed (w_objs w2) pc (tree_of (w_objs w2) tmpc))
+          /\ forall n, patch_commit w' n =
+                       if name_eqb pn n then Some (length (w_objs w2))
+                       else if name_eqb tmpname n then None else patch_commit w2 n)).
+Proof.
+  intros w2 so s2 A tmpname tmpc pn pc w' x Hi Hs Es Hfp Hbr Hum Hsh Ha Hl Htn Hpn E.
+  destruct (open_allow_ok w2 so s2 Hi Hs Es) as [b Eo]. rewrite Eo in E.
+  pose proof Hi as [_ [Hst _]]. destruct (Hst so s2 Es) as [[Hnd _] _].
+  unfold all_of in Hnd. rewrite Ha in Hnd.
+  apply NoDup_app_iff in Hnd as [Hnd1 [_ Hdis]]. apply NoDup_app_iff in Hnd1 as [_ [_ HdA]].
+  assert (HA : ~ In tmpname A) by (intros Hin; apply (HdA tmpname Hin); now left).
+  assert (HUH : ~ In tmpname (s_unapplied s2 ++ s_hidden s2)).
+  { apply Hdis. apply in_or_app. right. now left. }
+  assert (HU : ~ In tmpname (s_unapplied s2)) by (intros Hin; apply HUH; apply in_or_app; now left).
+  assert (HH : ~ In tmpname (s_hidden s2)) by (intros Hin; apply HUH; apply in_or_app; now right).
+  assert (HpA : In pn A) by (now apply last_error_In in Hl).
+  assert (Hne : pn <> tmpname) by (intros ->; contradiction).
+  assert (Hne' : name_eqb tmpname pn = false) by (apply name_eqb_neq; congruence).
+  unfold transact in E. cbn [op_initialized negb] in E.
+  set (op2 := mkOpened _ _ _ _) in E. set (t := begin_txn op2 refresh_opts) in E.
+  assert (Hcur : cur_state (op_world op2) = Some s2).
+  { unfold cur_state. cbn. now rewrite Hs. }
+  assert (Hst_top : s_top s2 = tmpc) by (eapply s_top_last; eauto).
+  destruct (tree_eqb (tree_of (w_objs w2) tmpc) (tree_of (w_objs w2) pc)) eqn:Etr.
+  - rewrite (refresh_body_same pn tmpname t pc tmpc A Hpn Htn Etr Ha HA HU HH) in E.
+    set (tf := set_updated _ _) in E. rewrite execute_eq in E.
+    assert (Hx0 : snd (exec_body (op_world op2) tf None MOp) = X0).
+    { apply (refresh_exec_ok _ tf so pn pc); try reflexivity; try assumption.
+      - unfold tf. rewrite t_patch_upd. cbn [t_updated t begin_txn up_set up_remove up_get].
+        rewrite Hne'. exact Hpn.
+      - unfold tf. cbn. rewrite Hbr. exact Etr.
+      - unfold exec_consistent, tf. cbn. now rewrite Htn.
+      - cbn. congruence.
+      - cbn. congruence.
+      - cbn. rewrite Es. discriminate. }
+    rewrite E in Hx0. cbn [snd] in Hx0. subst x. split; [reflexivity|].
+    destruct (exec_body_patches (op_world op2) tf None MOp s2 w' X0 Hcur eq_refl
+                (store_extends_refl (w_objs w2)) E)
+      as [Hx [[_ Hc]|[[_ Hp] _]]]; [congruence|]. split; [exact Hx|]. left. split; [reflexivity|].
+    intros n. rewrite Hp. unfold tf. rewrite t_patch_upd.
+    cbn [t_updated t begin_txn up_set up_remove up_get].
+    destruct (name_eqb tmpname n); [reflexivity|].
+    symmetry. apply (patch_commit_cur w2 s2). unfold cur_state. now rewrite Hs.
+  - rewrite (refresh_body_new pn tmpname t pc tmpc A Hpn Htn Hne Etr Ha HA HU HH) in E.
+    set (c := refreshed (t_objs t) pc (tree_of (t_objs t) tmpc)) in E.
+    set (tf := set_updated _ _) in E. rewrite execute_eq in E.
+    assert (Hobjs : t_objs tf = w_objs w2 ++ [c]) by reflexivity.
+    assert (Hup : t_updated tf = [(pn, Some (length (w_objs w2))); (tmpname, None)]).
+    { unfold tf. rewrite t_updated_set_updated. cbn [t_updated t begin_txn].
+      unfold up_set. cbn [up_remove]. now rewrite Hne'. }
+    assert (Hx0 : snd (exec_body (op_world op2) tf None MOp) = X0).
+    { apply (refresh_exec_ok _ tf so pn (length (w_objs w2))); try reflexivity; try assumption.
+      - unfold t_patch. rewrite Hup. cbn [up_get]. now rewrite name_eqb_refl.
+      - rewrite Hobjs. unfold tree_of at 1. rewrite get_put_new. cbn [c refreshed plain c_tree].
+        change (t_cur_tree tf) with (tree_of (w_objs w2) (w_branch w2)). rewrite Hbr.
+        apply tree_eqb_refl.
+      - unfold exec_consistent. rewrite Hup. cbn [forallb fst snd].
+        change (t_stack tf) with s2. rewrite Htn.
+        replace (mem pn (t_all tf)) with true; [reflexivity|]. symmetry. apply mem_In.
+        change (t_all tf) with (A ++ s_unapplied s2 ++ s_hidden s2). apply in_or_app. now left.
+      - cbn. congruence.
+      - cbn. congruence.
+      - rewrite Hobjs. unfold c, refreshed. rewrite state_of_put_plain. rewrite Es. discriminate.
+      - rewrite Hobjs. eapply NoPanicExec.first_parent_ext; [apply store_extends_put|exact Hfp]. }
+    rewrite E in Hx0. cbn [snd] in Hx0. subst x. split; [reflexivity|].
+    assert (Hxt : store_extends (w_objs (op_world op2)) (t_objs tf)).
+    { rewrite Hobjs. apply store_extends_put. }
+    destruct (exec_body_patches (op_world op2) tf None MOp s2 w' X0 Hcur eq_refl Hxt E)
+      as [Hx [[_ Hc]|[[Hxp Hp] _]]]; [congruence|]. split; [exact Hx|]. right. split; [reflexivity|].
+    split.
+    + destruct Hxp as [e He]. rewrite He, Hobjs. apply get_app_l. apply get_put_new.
+    + intros n. rewrite Hp. unfold t_patch. rewrite Hup. cbn [up_get].
+      destruct (name_eqb pn n); [reflexivity|]. destruct (name_eqb tmpname n); [reflexivity|].
+      change (t_stack tf) with s2.
+      symmetry. apply (patch_commit_cur w2 s2). unfold cur_state. now rewrite Hs.
+Qed.
+
+Lemma refresh_first : forall op tmpname w2,
+  op_ok op -> w_unmerged (op_world op) = false ->
+  names_ok (tmpname :: all_of (op_state op)) ->
+  transact (mkOpened (with_objs (op_world op)
+                        (w_objs (op_world op)
+                         ++ [plain [w_branch (op_world op)] (w_wt (op_world op)) 0%N []]))
+                     (op_state op) (op_base op) (op_initialized op))
+           default_opts (new_applied tmpname (length (w_objs (op_world op)))) MOp = (w2, X0) ->
+  exists so s2,
+    Inv w2 /\ w_stack w2 = Some so /\ state_of (w_objs w2) so = Some s2
+    /\ first_parent (w_objs w2) so <> None
+    /\ w_branch w2 = length (w_objs (op_world op)) /\ w_unmerged w2 = false
+    /\ s_head s2 = length (w_objs (op_world op))
+    /\ s_applied s2 = s_applied (op_state op) ++ [tmpname]
+    /\ (forall n, pm_get (s_patches s2) n =
+                  if name_eqb tmpname n then Some (length (w_objs (op_world op)))
+                  else pm_get (s_patches (op_state op)) n)
+    /\ store_extends (w_objs (op_world op)
+                      ++ [plain [w_branch (op_world op)] (w_wt (op_world op)) 0%N []]) (w_objs w2)
+    /\ op_initialized op = true.
+Proof.
+  intros op tmpname w2 Hok Hum Hnm Et.
+  set (w1 := op_world op) in *. set (s := op_state op) in *.
+  set (ctmp := plain [w_branch w1] (w_wt w1) 0%N []) in *.
+  set (op1 := mkOpened _ _ _ _) in Et.
+  assert (Hi2 : Inv w2).
+  { change w2 with (fst (w2, X0)). rewrite <- Et. pose proof Hok as [Hiw _].
+    apply Inv_iff in Hiw as [_ [Hbr _]]. apply transact_inv.
+    - apply op_ok_put; [exact Hok|]. intros p [<-|[]]. exact Hbr.
+    - intros W. apply new_applied_wf; [exact W|exact Hnm|apply patch_commit_new].
+    - frame_auto. }
+  apply transact_X0 in Et as [t1 [Ef [Hini Eb]]]. apply new_applied_ok in Ef.
+  apply exec_ok_shape in Eb as (th & w1' & st1 & wt' & um' & prev & objs' & so & _ & Hth & El & Eco & Hprev & Ec & Ew & _).
+  apply exec_logged_fields in El as (L1 & L2 & L3 & L4 & L5 & L6 & L7 & L8).
+  assert (Hth' : th = length (w_objs w1)).
+  { rewrite Ef in Hth. unfold t_head_oid, t_top in Hth.
+    rewrite t_head_set_updated, t_head_set_lists, t_applied_set_updated, t_applied_set_lists in Hth.
+    cbn [t_head begin_txn] in Hth. rewrite last_error_app, t_patch_upd, up_get_set, name_eqb_refl in Hth.
+    now injection Hth as <-. }
+  assert (Hco : um' = false).
+  { unfold exec_co in Eco. rewrite Ef in Eco.
+    rewrite t_opts_set_updated, t_opts_set_lists in Eco. cbn [t_opts begin_txn default_opts o_set_head o_use_iw andb] in Eco.
+    injection Eco as _ <-. rewrite L3, Ef. cbn. exact Hum. }
+  pose proof (state_commit_state _ _ _ _ _ Ec) as [Hx2 Es2].
+  apply NoPanicExec.state_commit_first_parent in Ec.
+  exists so, (exec_state t1 th prev st1). subst w2. cbn [w_stack w_objs w_branch w_unmerged].
+  split; [exact Hi2|]. split; [reflexivity|]. split; [exact Es2|]. split; [exact Ec|].
+  split; [rewrite Ef; cbn; exact Hth'|]. split; [exact Hco|].
+  split; [exact Hth'|]. split; [rewrite Ef; reflexivity|]. split; [|split; [|exact Hini]].
+  - intros n. unfold exec_state. cbn [s_patches]. rewrite pm_get_apply, L7, Ef.
+    rewrite t_updated_set_updated, up_get_set. cbn. destruct (name_eqb tmpname n); reflexivity.
+  - eapply store_extends_trans; [|exact Hx2]. rewrite Ef in L8. exact L8.
+Qed.
+
+Lemma run_refresh_eq : forall w,
+  run_refresh w =
+  match open_stack PAllow w with
+  | None => err2 w
+  | Some op =>
+      let w1 := op_world op in
+      let s := op_state op in
+      if negb (head_top_ok op) then err2 w1
+      else
+        match last_error (s_applied s) with
+        | None => err2 w1
+        | Some pn =>
+            if w_unmerged w1 then err2 w1
+            else
+              let '(objs1, tmpc) := put (w_objs w1) (plain [w_branch w1] (w_wt w1) 0%N []) in
+              let tmpname :=
+                match uniquify s_refresh_temp [] (all_of s) with UOk n => n | UFuel => s_refresh_temp end in
+              let op1 := mkOpened (with_objs w1 objs1) s (op_base op) (op_initialized op) in
+              match transact op1 default_opts (new_applied tmpname tmpc) MOp with
+              | (w2, X0) =>
+                  match open_stack PAllow w2 with
+                  | None => err2 w2
+                  | Some op2 => transact op2 refresh_opts (refresh_body pn tmpname) MOp
+                  end
+              | other => other
+              end
+        end
+  end.
+Proof. reflexivity. Qed.
+
+Lemma open_allow_init : forall w op,
+  open_stack PAllow w = Some op -> op_initialized op = true ->
+  cur_state w = Some (op_state op) /\ w_objs (op_world op) = w_objs w
+  /\ w_wt (op_world op) = w_wt w.
+Proof.
+  intros w op H Hi. unfold open_stack in H. unfold cur_state.
+  destruct (w_stack w) as [so|].
+  - destruct (state_of (w_objs w) so) as [s|]; [|discriminate].
+    destruct (stack_base _ _ s); [|discriminate]. injection H as <-. auto.
+  - injection H as <-. discriminate.
+Qed.
+
+Lemma new_applied_no_halt : forall n o t t' h, new_applied n o t <> THalt t' h.
+Proof.
+  intros n o t t' h. unfold new_applied.
+  destruct (first_parent (t_objs t) o); [|discriminate]. destruct (t_top t); [|discriminate].
+  destruct (Nat.eqb _ _); discriminate.
+Qed.
+
+Lemma refresh_spec : forall w w' x,
+  Inv w -> run_refresh w = (w', x) ->
+  store_extends (w_objs w) (w_objs w')
+  /\ ((kept w w' /\ x <> X0)
+      \/ exists s pn pc cpc,
+           x = X0 /\ cur_state w = Some s /\ last_error (s_applied s) = Some pn
+           /\ pm_get (s_patches s) pn = Some pc /\ get (w_objs w) pc = Some cpc
+           /\ ((tree_eqb (w_wt w) (tree_of (w_objs w) pc) = true /\ kept w w')
+               \/ (tree_eqb (w_wt w) (tree_of (w_objs w) pc) = false
+                   /\ exists o c, get (w_objs w') o = Some c /\ c_meta c = c_meta cpc
+                                  /\ c_subj c = c_subj cpc
+                                  /\ forall n, patch_commit w' n =
+                                               if name_eqb pn n then Some o else patch_commit w n))).
+Proof.
+  intros w w' x Hi E. rewrite run_refresh_eq in E.
+  destruct (open_stack PAllow w) as [op|] eqn:Eo.
+  2:{ injection E as <- <-. split; [apply store_extends_refl|]. left. split; [apply kept_refl|discriminate]. }
+  destruct (open_patches _ _ _ Eo ltac:(discriminate)) as [Hx1 Hk1].
+  pose proof (open_ok _ _ _ Hi Eo) as Hok. pose proof (open_op_mir _ _ _ Eo) as Hm.
+  cbv zeta in E.
+  assert (Hfail : (op_world op, X2) = (w', x) ->
+            store_extends (w_objs w) (w_objs w') /\ ((kept w w' /\ x <> X0) \/
+            exists s pn pc cpc,
+           x = X0 /\ cur_state w = Some s /\ last_error (s_applied s) = Some pn
+           /\ pm_get (s_patches s) pn = Some pc /\ get (w_objs w) pc = Some cpc
+           /\ ((tree_eqb (w_wt w) (tree_of (w_objs w) pc) = true /\ kept w w')
+               \/ (tree_eqb (w_wt w) (tree_of (w_objs w) pc) = false
+                   /\ exists o c, get (w_objs w') o = Some c /\ c_meta c = c_meta cpc
+                                  /\ c_subj c = c_subj cpc
+                                  /\ forall n, patch_commit w' n =
+                                               if name_eqb pn n then Some o else patch_commit w n)))).
+  { intros Ey. injection Ey as <- <-. split; [exact Hx1|]. left. split; [exact Hk1|discriminate]. }
+  destruct (negb (head_top_ok op)); [exact (Hfail E)|].
+  destruct (last_error (s_applied (op_state op))) as [pn|] eqn:El; [|exact (Hfail E)].
+  destruct (w_unmerged (op_world op)) eqn:Eu; [exact (Hfail E)|].
+  unfold put in E. cbv beta iota zeta in E. clear Hfail.
+  set (tmpname := match uniquify s_refresh_temp [] (all_of (op_state op)) with
+                  | UOk n => n | UFuel => s_refresh_temp end) in *.
+  pose proof Hok as [Hiw [Hs Hb]]. pose proof Hs as [Hn [_ [Hd [Hp _]]]].
+  assert (Hnm : names_ok (tmpname :: all_of (op_state op))).
+  { apply uniquify_names_ok; [exact Hn|exact refresh_temp_valid]. }
+  match type of E with match ?tr with _ => _ end = _ => destruct tr as [w2 x2] eqn:Et end.
+  assert (Hop1 : op_mir (mkOpened (with_objs (op_world op)
+                   (w_objs (op_world op) ++ [plain [w_branch (op_world op)] (w_wt (op_world op)) 0%N []]))
+                   (op_state op) (op_base op) (op_initialized op))).
+  { apply op_mir_with_objs; [exact Hm|apply store_extends_put]. }
+  destruct (transact_patches _ _ _ _ _ _ Hop1 (frame_new_applied _ _ _) Et) as [Hx2 Hcase].
+  cbn [op_world with_objs w_objs] in Hx2.
+  assert (Hx12 : store_extends (w_objs w) (w_objs w2)).
+  { eapply store_extends_trans; [exact Hx1|]. eapply store_extends_trans; [apply store_extends_put|exact Hx2]. }
+  assert (Hkept : x2 <> X0 -> (w2, x2) = (w', x) ->
+            store_extends (w_objs w) (w_objs w') /\ ((kept w w' /\ x <> X0) \/
+            exists s pn pc cpc,
+           x = X0 /\ cur_state w = Some s /\ last_error (s_applied s) = Some pn
+           /\ pm_get (s_patches s) pn = Some pc /\ get (w_objs w) pc = Some cpc
+           /\ ((tree_eqb (w_wt w) (tree_of (w_objs w) pc) = true /\ kept w w')
+               \/ (tree_eqb (w_wt w) (tree_of (w_objs w) pc) = false
+                   /\ exists o c, get (w_objs w') o = Some c /\ c_meta c = c_meta cpc
+                                  /\ c_subj c = c_subj cpc
+                                  /\ forall n, patch_commit w' n =
+                                               if name_eqb pn n then Some o else patch_commit w n)))).
+  { intros Hne Ey. injection Ey as <- <-. split; [exact Hx12|]. left. split; [|exact Hne].
+    destruct Hcase as [[Hk2 _]|[t' [_ [[_ Hc]|[h [Hc _]]]]]].
+    - eapply kept_trans; [exact Hk1|]. eapply kept_trans; [apply kept_put_plain|exact Hk2].
+    - contradiction.
+    - exfalso. revert Hc. apply new_applied_no_halt. }
+  destruct x2; try (apply Hkept; [discriminate|exact E]). clear Hkept Hcase.
+  destruct (refresh_first op tmpname w2 Hok Eu Hnm Et)
+    as (so & s2 & Hi2 & Hs2 & Es2 & Hfp2 & Hbr2 & Hum2 & Hsh2 & Ha2 & Hpm2 & Hxo2 & Hini).
+  destruct (open_allow_init w op Eo Hini) as [Hcw [Hobjs Hwt]].
+  assert (HpnA : In pn (all_of (op_state op))).
+  { unfold all_of. apply in_or_app. left. now apply last_error_In in El. }
+  destruct (pm_get (s_patches (op_state op)) pn) as [pc|] eqn:Epc; [|now apply Hd in HpnA].
+  destruct (Hp pn pc Epc) as [[cpc [Hcpc _]] _]. rewrite Hobjs in Hcpc.
+  assert (Htmp : ~ In tmpname (all_of (op_state op))).
+  { destruct Hnm as [Hnd _]. now inversion Hnd. }
+  assert (Hne' : name_eqb tmpname pn = false).
+  { apply name_eqb_neq. intros ->. contradiction. }
+  assert (Htnone : pm_get (s_patches (op_state op)) tmpname = None).
+  { destruct (pm_get (s_patches (op_state op)) tmpname) eqn:Eg; [|reflexivity].
+    exfalso. apply Htmp. apply Hd. congruence. }
+  assert (Hpm_tn : pm_get (s_patches s2) tmpname = Some (length (w_objs (op_world op)))).
+  { now rewrite Hpm2, name_eqb_refl. }
+  assert (Hpm_pn : pm_get (s_patches s2) pn = Some pc) by (now rewrite Hpm2, Hne').
+  destruct (refresh_second w2 so s2 (s_applied (op_state op)) tmpname (length (w_objs (op_world op)))
+              pn pc w' x Hi2 Hs2 Es2 Hfp2 Hbr2 Hum2 Hsh2 Ha2 El Hpm_tn Hpm_pn E)
+    as [-> [Hx3 Hres]].
+  split; [eapply store_extends_trans; eauto|]. right.
+  exists (op_state op), pn, pc, cpc.
+  split; [reflexivity|]. split; [exact Hcw|]. split; [exact El|]. split; [exact Epc|].
+  split; [exact Hcpc|].
+  (* trees *)
+  assert (Ht1 : tree_of (w_objs w2) (length (w_objs (op_world op))) = w_wt w).
+  { unfold tree_of. destruct Hxo2 as [e ->]. rewrite (get_app_l _ e _ _ (get_put_new _ _)).
+    cbn. exact Hwt. }
+  assert (Hg2 : get (w_objs w2) pc = Some cpc).
+  { destruct Hx12 as [e ->]. now apply get_app_l. }
+  assert (Ht2 : tree_of (w_objs w2) pc = tree_of (w_objs w) pc).
+  { unfold tree_of. now rewrite Hg2, Hcpc. }
+  rewrite Ht1, Ht2 in Hres.
+  assert (Hpc2 : forall n, patch_commit w2 n = pm_get (s_patches s2) n).
+  { apply patch_commit_cur. unfold cur_state. now rewrite Hs2. }
+  assert (Hpcw : forall n, patch_commit w n = pm_get (s_patches (op_state op)) n).
+  { now apply patch_commit_cur. }
+  destruct Hres as [[Htr Hpat]|[Htr [Hget Hpat]]]; [left|right]; (split; [exact Htr|]).
+  - intros n. rewrite Hpat, Hpc2, Hpm2, Hpcw.
+    destruct (name_eqb_spec tmpname n) as [<-|Hnn]; [now rewrite Htnone|reflexivity].
+  - eexists _, _. split; [exact Hget|]. unfold refreshed, subj_of. rewrite Hg2. cbn.
+    split; [reflexivity|]. split; [reflexivity|].
+    intros n. rewrite Hpat, Hpc2, Hpm2, Hpcw. destruct (name_eqb pn n); [reflexivity|].
+    destruct (name_eqb_spec tmpname n) as [<-|Hnn]; [now rewrite Htnone|reflexivity].
+Qed.
+
+(* ---------------------------------------------------------------- new *)
+
+Section New.
+  Variable w : world.
+  Variable meta : N.
+  Variable msg : str.
+
+  Definition Qnew : pred := fun objs n o' =>
+    patch_commit w n = Some o' \/ (patch_commit w n = None /\ ident_of objs o' = Some (meta, msg)).
+
+  Lemma Qnew_mono : Qmono Qnew.
+  Proof.
+    intros a b n o [e ->] [H|[H1 H2]]; [now left|right]. split; [exact H1|].
+    unfold ident_of in *. destruct (get a o) as [c|] eqn:E; [|discriminate].
+    now rewrite (get_app_l _ e _ _ E).
+  Qed.
+
+  Lemma run_new_sat : forall nm, Inv w -> wsat Qnew (fst (run_new w nm meta msg)).
+  Proof.
+    intros nm Hi. assert (Hw : wsat Qnew w) by (intros n o E; now left).
+    unfold run_new. destruct (from_str nm) as [pn|]; [|exact Hw].
+    destruct (open_stack PAuto w) as [op|] eqn:Eo; [|exact Hw].
+    pose proof (open_sat _ _ _ _ Qnew_mono Eo ltac:(discriminate) Hw) as Hw1.
+    destruct (open_patches _ _ _ Eo ltac:(discriminate)) as [_ Hk].
+    pose proof (open_ok _ _ _ Hi Eo) as [_ [[_ [_ [Hd _]]] _]]. pose proof (open_op_mir _ _ _ Eo) as Hm.
+    destruct (w_unmerged (op_world op)); [exact Hw1|].
+    destruct (negb (head_top_ok op)); [exact Hw1|].
+    destruct (stack_collides (op_state op) pn) eqn:Ec; [exact Hw1|].
+    unfold put. cbv beta iota zeta.
+    apply transact_sat.
+    - exact Qnew_mono.
+    - apply op_mir_with_objs; [exact Hm|apply store_extends_put].
+    - frame_auto.
+    - cbn [op_world]. now apply wsat_put_plain; [apply Qnew_mono|].
+    - cbn [op_world op_state]. intros Hc T. rewrite cur_put_plain in Hc.
+      apply new_applied_sat; [exact T|]. cbn [begin_txn t_objs op_world with_objs w_objs].
+      right. split.
+      + rewrite <- Hk, (patch_commit_cur _ _ Hc).
+        destruct (pm_get (s_patches (op_state op)) pn) eqn:Eg; [|reflexivity]. exfalso.
+        assert (Hin : In pn (all_of (op_state op))) by (apply Hd; congruence).
+        pose proof (stack_collides_none _ _ Ec pn Hin) as Hcol. rewrite collides_refl in Hcol. discriminate.
+      + unfold ident_of. rewrite get_put_new. reflexivity.
+  Qed.
+End New.
+
+(* ---------------------------------------------------------------- the theorems *)
+
+Lemma ident_kept : forall a b o c,
+  store_extends a b -> get a o = Some c -> ident_of b o = ident_of a o.
+Proof.
+  intros a b o c [e ->] H. unfold ident_of. now rewrite H, (get_app_l _ e _ _ H).
+Qed.
+
+Lemma step_Qid : forall lower_s w c,
+  Inv w -> manip c = true -> is_rename c = false -> is_uncommit c = false ->
+  wsat (Qid w) (fst (step lower_s w c)).
+Proof.
+  intros lower_s w c Hi Hm Hr Hu. pose proof (Qid_init w Hi) as Hw. pose proof (Qid_ok w) as HQ.
+  destruct c; try discriminate; cbn [step].
+  - apply open_only_sat; [apply Qid_mono|discriminate|exact Hw].
+  - (* refresh *)
+    destruct (run_refresh w) as [w' x] eqn:E. cbn [fst].
+    destruct (refresh_spec w w' x Hi E) as [Hx [[Hk _]|(s & pn & pc & cpc & _ & Hc & _ & Hpc & Hg & Hcase)]].
+    + now apply (wsat_kept _ w); [apply Qid_mono| | |].
+    + destruct Hcase as [[_ Hk]|[_ (o & c & Ho & Hme & Hsu & Hpat)]].
+      * now apply (wsat_kept _ w); [apply Qid_mono| | |].
+      * intros n o' En. rewrite Hpat in En. destruct (name_eqb_spec pn n) as [<-|Hn].
+        -- injection En as <-. exists c, pc, cpc. rewrite (patch_commit_cur _ _ Hc). auto.
+        -- apply (Qid_mono w (w_objs w)); [exact Hx|]. now apply Hw.
+  - now apply run_push_sat.
+  - now apply run_pop_sat.
+  - now apply run_goto_sat.
+  - now apply run_float_sat.
+  - now apply run_sink_sat.
+  - now apply run_delete_sat.
+  - now apply run_hide_sat.
+  - now apply run_unhide_sat.
+  - now apply run_commit_sat.
+  - now apply run_clean_sat.
+  - now apply run_spill_sat.
+  - apply run_log_clear_sat; [apply Qid_mono|exact Hw].
+  - apply open_only_sat; [apply Qid_mono|discriminate|exact Hw].
+Qed.
+
+Lemma manipulation_keeps_identity :
+  forall lower_s, LowerOK lower_s ->
+  forall w c w' x n o',
+    Inv w -> manip c = true -> step lower_s w c = (w', x) -> patch_commit w' n = Some o' ->
+    (exists a o, patch_commit w a = Some o
+                 /\ ident_of (w_objs w') o' = ident_of (w_objs w) o
+                 /\ (a = n \/ is_rename c = true))
+    \/ (is_uncommit c = true /\ patch_commit w n = None /\ o' < length (w_objs w)).
+Proof.
+  intros lower_s HL w c w' x n o' Hi Hm E En.
+  assert (Hid : Qid w (w_objs w') n o' ->
+            exists a o, patch_commit w a = Some o
+                 /\ ident_of (w_objs w') o' = ident_of (w_objs w) o
+                 /\ (a = n \/ is_rename c = true)).
+  { intros H. apply Qid_ident in H as [o [H1 H2]]. exists n, o. auto. }
+  destruct (is_rename c) eqn:Er; [|destruct (is_uncommit c) eqn:Eu].
+  - (* rename *)
+    left. destruct c; try discriminate. cbn [step] in E.
+    assert (Hw : wsat (Qren w) w) by (intros m p Ep; now exists m).
+    pose proof (run_rename_sat w w old new Hw) as H. rewrite E in H. cbn [fst] in H.
+    destruct (H n o' En) as [a Ha]. exists a, o'. split; [exact Ha|]. split; [|now right].
+    destruct (inv_patch_get w a o' Hi Ha) as [c0 Hc0].
+    apply (ident_kept _ _ _ c0); [|exact Hc0].
+    pose proof (step_extends lower_s w (CRename old new)) as Hx. cbn [step] in Hx. now rewrite E in Hx.
+  - (* uncommit *)
+    destruct c; try discriminate. cbn [step] in E.
+    pose proof (run_uncommit_sat w number names Hi) as H. rewrite E in H. cbn [fst] in H.
+    destruct (H n o' En) as [Hq|Hnone]; [left; now apply Hid|]. right.
+    split; [reflexivity|]. split; [exact Hnone|].
+    pose proof (run_uncommit_inv w number names Hi) as Hi'. rewrite E in Hi'. cbn [fst] in Hi'.
+    destruct (CommitProofs.uncommit_no_new_commit _ _ _ _ _ E) as [_ Hnn].
+    destruct (inv_patch w' n o' Hi' En) as [Hpl _].
+    destruct (Nat.lt_ge_cases o' (length (w_objs w))) as [Hlt|Hge]; [exact Hlt|].
+    exfalso. exact (Hnn o' Hge Hpl).
+  - left. apply Hid. pose proof (step_Qid lower_s w c Hi Hm Er Eu) as H. rewrite E in H. now apply H.
+Qed.
+
+Lemma rename_same_commit :
+  forall lower_s, LowerOK lower_s ->
+  forall w old new w' n o',
+    Inv w -> step lower_s w (CRename old new) = (w', X0) -> patch_commit w' n = Some o' ->
+    exists a, patch_commit w a = Some o'.
+Proof.
+  intros lower_s HL w old new w' n o' Hi E En. cbn [step] in E.
+  assert (Hw : wsat (Qren w) w) by (intros m p Ep; now exists m).
+  pose proof (run_rename_sat w w old new Hw) as H. rewrite E in H. exact (H n o' En).
+Qed.
+
+Lemma new_keeps_others :
+  forall lower_s, LowerOK lower_s ->
+  forall w nm meta msg w' x n o',
+    Inv w -> step lower_s w (CNew nm meta msg) = (w', x) -> patch_commit w' n = Some o' ->
+    patch_commit w n = Some o'
+    \/ (patch_commit w n = None /\ ident_of (w_objs w') o' = Some (meta, msg)).
+Proof.
+  intros lower_s HL w nm meta msg w' x n o' Hi E En. cbn [step] in E.
+  pose proof (run_new_sat w meta msg nm Hi) as H. rewrite E in H. exact (H n o' En).
+Qed.
+
+Lemma unchanged_refresh_no_commit :
+  forall lower_s, LowerOK lower_s ->
+  forall w w' s top otop,
+    Inv w -> cur_state w = Some s -> last_error (s_applied s) = Some top ->
+    pm_get (s_patches s) top = Some otop ->
+    tree_eqb (w_wt w) (tree_of (w_objs w) otop) = true ->
+    step lower_s w CRefresh = (w', X0) ->
+    forall n, patch_commit w' n = patch_commit w n.
+Proof.
+  intros lower_s HL w w' s top otop Hi Hc Hl Hp Htr E. cbn [step] in E.
+  destruct (refresh_spec w w' X0 Hi E) as [_ [[_ Hne]|(s1 & pn & pc & cpc & _ & Hc1 & Hl1 & Hp1 & _ & Hcase)]];
+    [congruence|].
+  assert (s1 = s) by congruence. subst s1. assert (pn = top) by congruence. subst pn.
+  assert (pc = otop) by congruence. subst pc.
+  destruct Hcase as [[_ Hk]|[Hf _]]; [exact Hk|congruence].
+Qed.
+
+(* Model/Cmd.v leaves N_scope open; the statements of Properties/C08.v compare object ids
+   (nat) with the length of the store. *)
+Global Open Scope nat_scope.
